@@ -349,11 +349,11 @@ class World:
                 live = {self.mid_of(m) for m in be.list_mementos(self.refs[op[1]])}
                 return "n=%d subset=%d" % (len(got), int(set(got) <= live and len(set(got)) == len(got)))
             if k == "wmeta":
-                be.write_metadata(self.frh(op[1], op[2]), MKEYS[op[3]], b"meta%d" % op[4])
+                be.write_metadata(self.frh(op[1], op[2]), MKEYS[op[3]], b"" if op[4] == 0 else b"meta%d" % op[4])    # (value 0 = the empty byte string)
                 return "ok"
             if k == "rmeta":
                 b = be.read_metadata(self.frh(op[1], op[2]), MKEYS[op[3]])
-                return "none" if b is None else "b:%d" % int(bytes(b)[4:])
+                return "none" if b is None else ("b:0" if bytes(b) == b"" else "b:%d" % int(bytes(b)[4:]))
             if k == "rseed":
                 import random as _random
                 _random.seed(op[1])
@@ -531,7 +531,7 @@ def gen_ops(rng, length, fns=None, override_rate=0.3, nvals=40, part_rate=0.0, s
             # custom metadata of a few calls, written and read back often (also across re-memoization)
             fn, arg = fns[0], rng.choice(ARGS[:2])
             if rng.random() < 0.55:
-                ops.append(["wmeta", fn, arg, rng.choice(list(MKEYS)), rng.randrange(1, 50)])
+                ops.append(["wmeta", fn, arg, rng.choice(list(MKEYS)), rng.choice([0, 0] + list(range(1, 12)))])
             else:
                 ops.append(["rmeta", fn, arg, rng.choice(list(MKEYS))])
             continue
@@ -571,7 +571,7 @@ def gen_ops(rng, length, fns=None, override_rate=0.3, nvals=40, part_rate=0.0, s
         elif r < 0.91:
             ops.append(["lsml", fn, rng.randint(1, 3)])
         elif r < 0.95:
-            ops.append(["wmeta", fn, arg, rng.choice(list(MKEYS)), rng.randrange(1, 50)])
+            ops.append(["wmeta", fn, arg, rng.choice(list(MKEYS)), rng.randrange(0, 50)])
         elif r < 0.98:
             ops.append(["rmeta", fn, arg, rng.choice(list(MKEYS))])
         else:
